@@ -130,6 +130,14 @@ def s_delete_branch(world):
     return 'delete-branch', ('delete_branch', first_dest(world), {})
 
 
+def s_delete_branch_with_queue(world):
+    """queue branches exist (a PR is queued on the newest destination) when
+    an untargeted older / hotfix branch is archived"""
+    pr, src, rec = to_queued(world, 1, world.layout['chain'][-1])
+    victims = world.layout.get('hotfix', []) or [first_dest(world)]
+    return 'delete-branch-with-queue', ('delete_branch', victims[0], {})
+
+
 def s_conflict(world):
     src = 'bugfix/TEST-1-c'
     pr = world.do('open_pr', src=src, dst=first_dest(world),
@@ -163,6 +171,7 @@ SCENARIOS = {
     'create_branch': s_create_branch, 'create_stab': s_create_stab,
     'delete_branch': s_delete_branch, 'conflict': s_conflict,
     'conflict_later': s_conflict_later,
+    'delete_branch_with_queue': s_delete_branch_with_queue,
 }
 
 
